@@ -42,8 +42,8 @@ D.update({
  'C03-w3-1': ("off-by-one in the 'first iterable of a comprehension' test (context.create_context): a name that is the first leaf of the first iterable is resolved from inside the comprehension",
               "a comprehension in a class body whose iterable starts with a class attribute, or an iterable whose leading name equals a loop target", "C03", "family added by the builder: comprehensions whose first iterable starts with the tracked identifier - 3 iterable forms (x, x.copy(), x[0]) x 2 targets (_ or x itself), in every enclosing scope kind, as list/set/dict comprehension and generator expression (quick +504 shapes x 4 levels)"),
  'C03-w3-2': ("GlobalNameFilter also merges `nonlocal` declarations into the module scope", "a `nonlocal x` in a nested function plus a use of x that Python resolves in the module", "C03", ""),
- 'C08-w3-1': ("Script(path=...) without code parses with cache=True: answers come from the tree of an earlier unsaved buffer on that path", "Script(code=X, path=P) with X != file, then Script(path=P)", "C08", ""),
- 'C08-w3-2': ("early return in dynamic_arrays._internal_check_array_additions skips restoring settings.dynamic_params_for_other_modules (process-global)", "a buffer text iterating a list literal without .append, then a text needing callers in a sibling module", "C08", ""),
+ 'C08-w3-1': ("Script(path=...) without code parses with cache=True: answers come from the tree of an earlier unsaved buffer on that path", "Script(code=X, path=P) with X != file, then Script(path=P)", "C08", "disk events added by the builder (path mode): `save` (buffer written to its file, mtime +1 s) and `reload` (Script(path=P) without code), interleaved with the edit events in all orders to depth 2 (3 thorough)"),
+ 'C08-w3-2': ("early return in dynamic_arrays._internal_check_array_additions skips restoring settings.dynamic_params_for_other_modules (process-global)", "a buffer text iterating a list literal without .append, then a text needing callers in a sibling module", "C08", "new base `dyn` added by the builder (the only caller of a buffer function lives in a sibling module on disk) and event `add_list_loop`; every mismatch is re-judged by two single-purpose fresh interpreters because the leaked setting also reached the batched oracle interpreter"),
  'C09-w3-1': ("package sub-module listing memoised per parso cache entry of __init__.py", "a sub-module added/removed while __init__.py is untouched, queried through the listing", "C09", "events added by the builder: add/remove sub-modules of a regular package with __init__.py untouched, probes through the folder listing (completion after `from pkg import `, `pkg.`, goto on the removed one)"),
  'C09-w3-2': ("get_default_project memoised per folder", "Scripts without project=, then __init__.py of the edited file's folder added/removed", "C09", "events added by the builder: a buffer analysed WITHOUT project= (get_default_project decides the root) and +/- __init__.py of its own folder"),
  'C10-w3-1': ("ImplicitNamespaceValue stores sorted(set(paths)): portions searched alphabetically instead of in sys.path order", "a namespace package split over two roots in non-alphabetical sys.path order with a clashing sub-module", "C10", "family `namespace-portions-clash` added by the builder: same sub-module in every portion x module/package/namespace directory per portion x every sys.path order of the roots (72 layouts quick, 3 roots thorough)"),
@@ -57,7 +57,7 @@ D.update({
  'C14-w3-1': ("is_crashed guard dropped at the top of CompiledSubprocess._send: a Script kept from before the crash raises ValueError (write to closed file)", "old Script re-queried after the crash was noticed through another Script", "C14", ""),
  'C14-w3-2': ("one shared try around the stream-closing loop in _cleanup_process: stdout/stderr of a helper that died before the send stay open", "crash phase 'before send' + fd table inspection", "C14", ""),
  'C15-w3-1': ("the memoiser forgets empty results: unresolvable diamonds are re-inferred along every path", "diamond-shaped definition graph with an unresolvable bottom", "C15", ""),
- 'C15-w3-2': ("recursion limit raised only during Script entry points; lazily inferring result objects run under the host limit", "get_names()/search()/goto() then .infer() on a 45+ chain", "C15", ""),
+ 'C15-w3-2': ("recursion limit raised only during Script entry points; lazily inferring result objects run under the host limit", "get_names()/search()/goto() then .infer() on a 45+ chain", "C15", "two-step family added by the builder: Names from get_names/search/goto/complete, then infer/goto/docstring/get_signatures/get_type_hint/defined_names/execute on them, on every program at n <= 64; workers now run under the recursion limit a default host has after `import jedi` from the tree under test (measured in a clean child) instead of a limit raised by the pool"),
  'C19-w3-1': ("Project search no longer scans foo.py for definitions named foo", "a definition spelled like the basename of its file", "C19", ""),
  'C19-w3-2': ("search regex memoised by name without the `complete` flag", "search('render') then complete_search('render') in one process", "C19", ""),
  'C20-w3-1': ("project dir prefixed only if not already on the sys path: it stays where the user listed it", "Project(proj, sys_path=[lib, proj])", "C20", ""),
